@@ -19,6 +19,8 @@ ASSUMPTIONS = ['the B operator handed to the adaptor is the positive-definite ma
 
 
 def run(ctx):
+    from . import stale
+    stale.loop_buffers(ctx, scope=lambda fn: fn.cls in ('Spectra::Arnoldi', 'Spectra::Lanczos'), min_instances=4)
     fz.no_direct_reduction(ctx)
     fz.adaptor_agreement(ctx)
     fz.subdiagonal_on_breakdown(ctx)
